@@ -195,6 +195,12 @@ def judgeTabWith (which : List String) (c : Case) (o : ObsLine) : Verdict :=
   match judgeTab true c o with
   | .ok =>
     if o.st ≠ "ok" then .ok else
+    -- exported file (when requested) = the returned tables, one after the other
+    let fileBad : Bool := match o.obs.getObjValAs? String "file", o.obs.getObjValAs? String "outs" with
+      | .ok f, .ok t => f != t
+      | _, _ => false
+    if fileBad then .violation "the exported file differs from the returned table(s)"
+      ((o.obs.getObjValAs? String "file").toOption.getD "") else
     let countProbs := match (o.obs.getObjVal? "parse").toOption.bind (fun pj => (pj.getObjVal? "nodes").toOption) with
       | some (.arr #[n]) => (match nodeOfJson n with | .ok pn => rowCountProblems pn (obsORows o) ++ wandContentProblems pn (obsORows o) | .error _ => [])
       | _ => []
@@ -283,6 +289,8 @@ def genTabFamily (tagp : String) (tier : String) (seed : Nat) (both : Bool) : Ar
       else if supported s then "" else "C02-regex-shape"
     let mk := fun (o : Tab.Opts) (sfx : String) =>
       let c := tabCase s!"{tagp}-{i}{sfx}" kind s id o
+      -- every fourth statement is also exported to a file
+      let c := if i % 4 = 1 then { c with args := c.args.setObjVal! "file" (true : Bool) } else c
       { c with note := Json.mkObj [("kf", (kf : Json))] }
     if both then
       out := out.push (mk { ext := true, ann := i % 3 = 0, gs := i % 5 = 0 } "x")
